@@ -1,6 +1,6 @@
 (* Per-operation specifications of the arena model: exact failure conditions (C13), effect on the
    three counts (C12), preservation of well-formedness, and the tree the returned node denotes (C14). *)
-From Clvm Require Import Model.AllocHist Proofs.BytesLemmas Proofs.AllocHeap.
+From Clvm Require Import Model.AllocHist Proofs.BytesLemmas Proofs.IntEncBasics Proofs.AllocHeap.
 From Coq Require Import Lia ZifyBool ZifyN ZifyNat.
 Open Scope N_scope.
 Arguments N.add : simpl never.
@@ -51,12 +51,12 @@ Qed.
 
 Lemma be_bytes_acc_app n v acc : be_bytes_acc n v acc = be_bytes_acc n v [] ++ acc.
 Proof.
-  revert v acc. induction n as [|n IH]; intros v acc; cbn; [reflexivity|].
-  rewrite IH, (IH _ [v mod 256]). rewrite <- app_assoc. reflexivity.
+  revert v acc. induction n as [|n IH]; intros v acc; [reflexivity|].
+  rewrite !be_bytes_acc_S. rewrite IH, (IH _ [v mod 256]). rewrite <- app_assoc. reflexivity.
 Qed.
 
 Lemma be_bytes_S n v : be_bytes (S n) v = be_bytes n (v / 256) ++ [v mod 256].
-Proof. unfold be_bytes. cbn. apply be_bytes_acc_app. Qed.
+Proof. unfold be_bytes. rewrite be_bytes_acc_S. apply be_bytes_acc_app. Qed.
 
 Lemma be_bytes_length n v : length (be_bytes n v) = n.
 Proof.
@@ -473,4 +473,206 @@ Proof.
         rewrite skipn_app, skipn_all, Nat.sub_diag. cbn [skipn app]. rewrite firstn_all. reflexivity.
       * split; [exact Hw'|]. unf. cbn. rewrite L1, L2. unfold atoms_len, u8_len. lia.
       * unfold bump. unf. cbn. rewrite L1, L2. unfold atoms_len, u8_len. lia.
+Qed.
+
+(* ------------------------------------------------------------------ checkpoints *)
+
+Lemma restore_t_spec a c : AOK a -> tcp_le c (hp a) -> WF (trunc (hp a) c) ->
+  exists a1, restore_transparent_checkpoint a c = Ok a1 /\ hp a1 = trunc (hp a) c /\ AOK a1 /\
+             bump a a1 0 0 0 /\ ghost_atoms a1 = ghost_atoms a + (atoms_len a - c_atoms c) /\
+             ghost_heap a1 = ghost_heap a + (u8_len a - c_u8s c) /\ ghost_pairs a1 = ghost_pairs a + (pairs_len a - c_pairs c).
+Proof.
+  intros [Hw Hc] (A & B & C) Hw'. unfold restore_transparent_checkpoint.
+  replace ((u8_len a <? c_u8s c) || (pairs_len a <? c_pairs c) || (atoms_len a <? c_atoms c)) with false
+    by (unfold u8_len, pairs_len, atoms_len; lia).
+  eexists. split; [reflexivity|]. cbn [hp ghost_atoms ghost_heap ghost_pairs].
+  destruct (trunc_lens (hp a) c (conj A (conj B C))) as (L1 & L2 & L3).
+  refine (conj eq_refl (conj _ (conj _ (conj eq_refl (conj eq_refl eq_refl))))).
+  - split; [exact Hw'|]. unf. cbn [hp heap_limit ghost_atoms ghost_pairs ghost_heap].
+    rewrite L1, L2, L3. lia.
+  - unfold bump. unf. cbn [hp heap_limit ghost_atoms ghost_pairs ghost_heap]. rewrite L1, L2, L3. lia.
+Qed.
+
+(* a full restore brings the three counts back to what the checkpoint recorded *)
+Lemma restore_spec a c : AOK a -> tcp_le (c_inner c) (hp a) -> WF (trunc (hp a) (c_inner c)) ->
+  c_atoms (c_inner c) + c_ga c <= MAX_NUM_ATOMS -> c_pairs (c_inner c) + c_gp c <= MAX_NUM_PAIRS ->
+  c_u8s (c_inner c) + c_gh c <= heap_limit a ->
+  exists a1, restore_checkpoint a c = Ok a1 /\ hp a1 = trunc (hp a) (c_inner c) /\ AOK a1 /\
+             heap_limit a1 = heap_limit a /\
+             counts a1 = (c_atoms (c_inner c) + c_ga c, c_pairs (c_inner c) + c_gp c, c_u8s (c_inner c) + c_gh c).
+Proof.
+  intros Ha Hle Hw' B1 B2 B3. destruct (restore_t_spec a (c_inner c) Ha Hle Hw') as (a1 & E & Hh & Ha1 & Hb & _).
+  unfold restore_checkpoint. rewrite E. cbn [bind]. eexists. split; [reflexivity|].
+  destruct (trunc_lens _ _ Hle) as (L1 & L2 & L3). destruct Ha as [_ Hc]. destruct Hb as (Hl & _).
+  cbn [hp set_ghosts heap_limit]. rewrite Hh.
+  refine (conj eq_refl (conj _ (conj Hl _))).
+  - split; [cbn [hp set_ghosts]; rewrite Hh; exact Hw'|]. unf.
+    cbn [hp set_ghosts heap_limit ghost_atoms ghost_pairs ghost_heap]. rewrite Hh, L1, L2, L3, Hl. lia.
+  - unfold counts. unf. cbn [hp set_ghosts heap_limit ghost_atoms ghost_pairs ghost_heap].
+    rewrite Hh, L1, L2, L3. reflexivity.
+Qed.
+
+Lemma checkpoint_of_counts a : counts_ok a ->
+  let c := checkpoint_of a in
+  (c_atoms (c_inner c) + c_ga c, c_pairs (c_inner c) + c_gp c, c_u8s (c_inner c) + c_gh c) = counts a /\
+  c_u8s (c_inner c) = u8_len a /\ c_atoms (c_inner c) = atoms_len a /\ c_pairs (c_inner c) = pairs_len a.
+Proof.
+  intros Hc. destruct (counts_u32 a Hc) as (U1 & U2 & U3). cbn. rewrite U1, U2, U3.
+  repeat split.
+Qed.
+
+(* ------------------------------------------------------------------ concatenation *)
+
+Lemma concat_loop_spec a size : WF (hp a) -> forall nodes acc counter acc' counter',
+  Forall (vnode (hp a)) nodes -> (exists y, acc = u8 (hp a) ++ y) ->
+  concat_loop a size nodes acc counter = Ok (acc', counter') ->
+  exists x, acc' = acc ++ x /\ counter' = counter + blen x /\ wf_bytes x = true /\
+            (forall ts, Forall2 (fun n t => denote (hp a) n = Some t) nodes ts ->
+                        exists bs, all_atoms ts = Some bs /\ x = bs).
+Proof.
+  intros Hw. induction nodes as [|n rest IH]; intros acc counter acc' counter' Hv Hacc H.
+  - cbn in H. apply Ok_inj in H. inversion H; subst. exists []. rewrite app_nil_r.
+    repeat split; [unfold blen; cbn; lia|]. intros ts Hts. inversion Hts; subst. exists []. split; reflexivity.
+  - inversion Hv as [|? ? Hn Hrest]; subst. destruct n as [i|i|v]; cbn [concat_loop] in H.
+    + discriminate.
+    + cbn in Hn. destruct (nth_N_lt _ _ Hn) as [[s e] E]. unfold get_atom in H. rewrite E in H.
+      cbn [bind] in H. unfold buf_len in H. cbn [fst snd] in H.
+      destruct Hw as [W1 W2 W3].
+      assert (Hin : In (s, e) (atoms (hp a))) by (eapply nth_error_In; exact E).
+      rewrite Forall_forall in W2. destruct (W2 _ Hin) as [A B]. cbn in A, B.
+      replace (e <? s) with false in H by lia. cbn [bind] in H.
+      destruct (size <? counter + (e - s)); [discriminate|].
+      destruct (slice_ok _ _ _ A B) as (b & Sb & Lb).
+      destruct Hacc as [y Hy]. rewrite Hy in H at 1. rewrite (slice_app_l _ y _ _ _ Sb) in H.
+      destruct (IH (acc ++ b) (counter + (e - s)) acc' counter' Hrest) as (x & X1 & X2 & X3 & X4).
+      { exists (y ++ b). rewrite Hy, app_assoc. reflexivity. }
+      { exact H. }
+      exists (b ++ x). rewrite app_assoc. split; [exact X1|]. split.
+      { unfold blen in *. rewrite app_length. lia. }
+      split. { rewrite wf_bytes_app, X3, (slice_wf _ _ _ _ W1 Sb). reflexivity. }
+      intros ts Hts. inversion Hts as [|? t ? ts' Ht Hts']; subst.
+      destruct (X4 _ Hts') as (bs & B1 & B2).
+      unfold denote in Ht. cbn in Ht. rewrite E, Sb in Ht. apply Some_inj in Ht. subst t.
+      cbn. rewrite B1. exists (b ++ bs). split; [reflexivity|]. now rewrite B2.
+    + cbn in Hn. rewrite small_bytes_ok in H by exact Hn. cbn [bind] in H.
+      destruct (IH (acc ++ be_bytes (N.to_nat (len_for_value v)) v) (counter + len_for_value v) acc' counter' Hrest)
+        as (x & X1 & X2 & X3 & X4).
+      { destruct Hacc as [y Hy]. exists (y ++ be_bytes (N.to_nat (len_for_value v)) v). rewrite Hy, app_assoc. reflexivity. }
+      { exact H. }
+      exists (be_bytes (N.to_nat (len_for_value v)) v ++ x). rewrite app_assoc. split; [exact X1|]. split.
+      { rewrite X2. unfold blen. rewrite app_length, be_bytes_length. lia. }
+      split. { rewrite wf_bytes_app, X3, be_bytes_wf. reflexivity. }
+      intros ts Hts. inversion Hts as [|? t ? ts' Ht Hts']; subst.
+      destruct (X4 _ Hts') as (bs & B1 & B2).
+      rewrite denote_small in Ht by exact Hn. apply Some_inj in Ht. subst t.
+      cbn. rewrite B1. eexists. split; [reflexivity|]. now rewrite B2.
+Qed.
+
+Lemma concat_loop_err a size e : WF (hp a) -> forall nodes, Forall (vnode (hp a)) nodes ->
+  forall counter acc, (exists y, acc = u8 (hp a) ++ y) ->
+  concat_loop a size nodes acc counter = Err e -> exists k, e = InternalError k.
+Proof.
+  intros Hw. induction nodes as [|m ms IH]; intros Hms counter acc Hacc H; [discriminate|].
+  inversion Hms as [|? ? Hm Hms']; subst. destruct m as [i|i|v]; cbn [concat_loop] in H.
+  - apply (f_equal (fun r => match r with Err x => x | Ok _ => OutOfFuel end)) in H. cbn in H. subst e. exists 3. reflexivity.
+  - cbn in Hm. destruct (nth_N_lt _ _ Hm) as [[s e'] E]. unfold get_atom in H. rewrite E in H.
+    cbn [bind] in H. unfold buf_len in H. cbn [fst snd] in H. destruct Hw as [W1 W2 W3].
+    assert (Hin : In (s, e') (atoms (hp a))) by (eapply nth_error_In; exact E).
+    rewrite Forall_forall in W2. destruct (W2 _ Hin) as [A B]. cbn in A, B.
+    replace (e' <? s) with false in H by lia. cbn [bind] in H.
+    destruct (size <? counter + (e' - s)).
+    { apply (f_equal (fun r => match r with Err x => x | Ok _ => OutOfFuel end)) in H. cbn in H. subst e. exists 2. reflexivity. }
+    destruct (slice_ok _ _ _ A B) as (b & Sb & Lb). destruct Hacc as [y Hy].
+    rewrite Hy in H at 1. rewrite (slice_app_l _ y _ _ _ Sb) in H.
+    eapply IH; [exact Hms'| |exact H]. exists (y ++ b). rewrite Hy, app_assoc. reflexivity.
+  - cbn in Hm. rewrite small_bytes_ok in H by exact Hm. cbn [bind] in H.
+    eapply IH; [exact Hms'| |exact H]. destruct Hacc as [y Hy].
+    exists (y ++ be_bytes (N.to_nat (len_for_value v)) v). rewrite Hy, app_assoc. reflexivity.
+Qed.
+
+Lemma new_concat_spec a size nodes : AOK a -> Forall (vnode (hp a)) nodes ->
+  match new_concat a size nodes with
+  | Err e => (e = TooManyAtoms /\ atom_count a = MAX_NUM_ATOMS) \/
+             (atom_count a < MAX_NUM_ATOMS /\
+              ((e = OutOfMemory /\ heap_limit a < heap_size a + size) \/
+               (heap_size a + size <= heap_limit a /\ exists k, e = InternalError k \/ e = Panic 6)))
+  | Ok (a', n) => atom_count a < MAX_NUM_ATOMS /\ heap_size a + size <= heap_limit a /\
+                  AOK a' /\ ext (hp a) (hp a') /\ vnode (hp a') n /\ bump a a' 1 0 size /\
+                  (forall ts, Forall2 (fun n t => denote (hp a) n = Some t) nodes ts ->
+                     exists bs, all_atoms ts = Some bs /\ blen bs = size /\ denote (hp a') n = Some (Atom bs))
+  end.
+Proof.
+  intros [Hw Hc] Hv. destruct (counts_u32 a Hc) as (U1 & U2 & U3).
+  unfold new_concat, check_atom_limit.
+  destruct (atoms_len a + ghost_atoms a =? MAX_NUM_ATOMS) eqn:E0.
+  { left. split; [reflexivity|]. unf. lia. }
+  assert (P0 : atom_count a < MAX_NUM_ATOMS) by (unf; lia).
+  cbn [bind].
+  destruct (heap_limit a <? u8_len a + ghost_heap a + size) eqn:E1.
+  { right. split; [exact P0|]. left. split; [reflexivity|]. unf. lia. }
+  assert (P1 : heap_size a + size <= heap_limit a) by (unf; lia).
+  destruct nodes as [|n [|n2 rest]].
+  - destruct (size =? 0) eqn:Es; cbn [negb].
+    + refine (conj P0 (conj P1 (conj _ (conj (ext_refl _) (conj _ (conj _ _)))))).
+      * split; [exact Hw|]. unf. cbn. lia.
+      * cbn. unf. lia.
+      * unfold bump. unf. cbn. lia.
+      * intros ts Hts. inversion Hts; subst. exists [].
+        split; [reflexivity|]. split; [unfold blen; cbn; lia|].
+        cbn [hp set_ghosts]. unfold nil_node. rewrite denote_small by (unf; lia). reflexivity.
+    + right. split; [exact P0|]. right. split; [exact P1|]. exists 2. now left.
+  - inversion Hv as [|? ? Hn _]; subst.
+    destruct (atom_len a n) as [l|e] eqn:El; cbn [bind].
+    + destruct (l =? size) eqn:Es; cbn [negb].
+      * refine (conj P0 (conj P1 (conj _ (conj (ext_refl _) (conj Hn (conj _ _)))))).
+        -- split; [exact Hw|]. unf. cbn. lia.
+        -- unfold bump. unf. cbn. lia.
+        -- intros ts Hts. inversion Hts as [|? t ? ? Ht Hnil]; subst. inversion Hnil; subst.
+           cbn [hp set_ghosts]. pose proof (denote_atom_or_pair _ _ _ Ht) as K.
+           destruct n as [i|i|v].
+           { cbn in El. discriminate. }
+           { destruct K as [b ->]. rewrite (atom_len_spec _ _ _ Ht) in El. apply Ok_inj in El.
+             exists b. cbn. rewrite app_nil_r. repeat split; [lia|exact Ht]. }
+           { destruct K as [b ->]. rewrite (atom_len_spec _ _ _ Ht) in El. apply Ok_inj in El.
+             exists b. cbn. rewrite app_nil_r. repeat split; [lia|exact Ht]. }
+      * right. split; [exact P0|]. right. split; [exact P1|]. exists 2. now left.
+    + right. split; [exact P0|]. right. split; [exact P1|].
+      destruct n as [i|i|v]; cbn in El.
+      * apply (f_equal (fun r => match r with Err x => x | Ok _ => OutOfFuel end)) in El. cbn in El. subst e.
+        exists 0. now right.
+      * exfalso. cbn in Hn. destruct (nth_N_lt _ _ Hn) as [[s e'] E]. unfold get_atom in El. rewrite E in El.
+        cbn in El. unfold buf_len in El. cbn in El. destruct Hw as [W1 W2 W3].
+        assert (Hin : In (s, e') (atoms (hp a))) by (eapply nth_error_In; exact E).
+        rewrite Forall_forall in W2. destruct (W2 _ Hin) as [A B]. cbn in A, B.
+        replace (e' <? s) with false in El by lia. discriminate.
+      * discriminate.
+  - destruct (concat_loop a size (n :: n2 :: rest) (u8 (hp a)) 0) as [[acc counter]|e] eqn:EL; cbn [bind].
+    + destruct (concat_loop_spec a size Hw _ _ _ _ _ Hv ltac:(exists []; now rewrite app_nil_r) EL) as (x & X1 & X2 & X3 & X4).
+      destruct (counter =? size) eqn:Es; cbn [negb].
+      * assert (Hle : u8_len a + size <= U32_MAX) by (unf; lia).
+        assert (L2 : blen acc = u8_len a + size) by (rewrite X1; unfold u8_len, blen in *; rewrite app_length; lia).
+        rewrite L2, (u32_id _ Hle), U1.
+        assert (L1 : nlen (atoms (hp a) ++ [(u8_len a, u8_len a + size)]) = atoms_len a + 1) by (rewrite nlen_app; reflexivity).
+        assert (Hh : mkHeap acc (atoms (hp a)) (pairs (hp a)) = push_u8 (hp a) x) by (unfold push_u8; now rewrite X1).
+        rewrite Hh.
+        assert (Hw' : WF (push_atom (push_u8 (hp a) x) (u8_len a) (u8_len a + size))).
+        { apply WF_push_atom; [apply WF_push_u8; assumption|lia|]. cbn. rewrite <- X1, L2. lia. }
+        refine (conj P0 (conj P1 (conj _ (conj _ (conj _ (conj _ _)))))).
+        -- split; [exact Hw'|]. unf. cbn. rewrite L1, <- X1, L2. unfold atoms_len, u8_len. lia.
+        -- eapply ext_trans; [apply ext_push_u8|apply ext_push_atom].
+        -- cbn. rewrite L1. lia.
+        -- unfold bump. unf. cbn. rewrite L1, <- X1, L2. unfold atoms_len, u8_len. lia.
+        -- intros ts Hts. destruct (X4 _ Hts) as (bs & B1 & B2). exists bs. split; [exact B1|]. subst x.
+           assert (Lx : blen bs = size) by lia. split; [exact Lx|].
+           unfold denote. cbn. unfold atoms_len. rewrite nth_N_app_end.
+           unfold slice. rewrite <- X1, L2. unfold u8_len.
+           replace ((blen (u8 (hp a)) <=? blen (u8 (hp a)) + size) && (blen (u8 (hp a)) + size <=? blen (u8 (hp a)) + size)) with true by lia.
+           rewrite X1.
+           replace (N.to_nat (blen (u8 (hp a)) + size - blen (u8 (hp a)))) with (length bs) by (unfold blen in *; lia).
+           replace (N.to_nat (blen (u8 (hp a)))) with (length (u8 (hp a))) by (unfold blen; lia).
+           rewrite skipn_app, skipn_all, Nat.sub_diag. cbn [skipn app]. rewrite firstn_all. reflexivity.
+      * right. split; [exact P0|]. right. split; [exact P1|]. exists 2. now left.
+    + right. split; [exact P0|]. right. split; [exact P1|].
+      destruct (concat_loop_err a size e Hw _ Hv 0 (u8 (hp a)) ltac:(exists []; now rewrite app_nil_r) EL) as [k ->].
+      exists k. now left.
 Qed.
